@@ -13,6 +13,13 @@
   for arbitrary `r` — own, duplicate, late, early, foreign id, unknown sender,
   for other commands, in any order. The model does not even enforce the queue
   mutex, so the theorems also cover commands truly in flight at the same time.
+
+  "Within its response timeout": the model has no clock; what is proved is that
+  every target is waited for with the command's OWN response timeout (the
+  per-target command is the command restricted to that target —
+  `C12_single_target_*`, `C12_waits_own_timeout`, `C12_sends_own_timeout`,
+  `C12_timer_is_code`), and that a reply processed while its call is pending is
+  never lost (`C12_reply_not_lost`).
 -/
 import ControlModel.Gen.ServentFacts
 import ControlModel.Proofs.CmdQueue
@@ -51,6 +58,40 @@ theorem C12_servent_is_code :
 theorem C12_consolidate_is_code :
     Gen.C12.consolidateShape =
       ["if len(responses) == 0", "if len(responses) == 1", "return &MesosCommandMultiResponse"] := by decide
+
+/-- Which object is used for what. `commit` makes the per-target command with
+    `MakeSingleTarget(receiver)` and hands THAT to `RunCommand`; `RunCommand`
+    takes the key's id from it, registers BEFORE it calls the send function,
+    hands it to the send function, and arms its timer with ITS response timeout
+    (`callCmd`, `keyOf?`, `timerOf`, and the order register → send that
+    `C12_reply_not_lost` relies on). -/
+theorem C12_timer_is_code :
+    Gen.C12.commitCalls =
+      ["singleCommand := command.MakeSingleTarget(receiver)",
+       "res, err := m.servent.RunCommand(singleCommand, receiver)"] ∧
+    Gen.C12.runCommandFlow =
+      ["params cmd,receiver", "cmdId := cmd.GetId()", "s.pending[callId] = call",
+       "err := s.SendFunc(cmd, receiver)", "case <-call.Done",
+       "case <-time.After(cmd.GetResponseTimeout())"] := by decide
+
+/-- What the model's `singleTarget` yields for a tabulated row. -/
+def C12_singleView (id : Nat) (targets : List Nat) (tmo : Nat) (args : List (Nat × Nat)) (recv : Nat) :
+    Option (Nat × List Nat × Nat × Nat × Bool) :=
+  (singleTarget { id := id, targets := targets, tmo := tmo, args := args } recv).map
+    (fun sc => (sc.id, sc.targets, sc.tmo, argOf sc recv, true))
+
+/-- `MakeSingleTarget` as LINKED NOW (evaluated by `vh gen` through the
+    Transition and TriggerHook wrappers and on the base, for receivers inside
+    and outside the target list, with and without an argument map, with
+    default / shorter / longer response timeouts) is the model's `singleTarget`:
+    nil outside the target list, otherwise the same id, the same response
+    timeout, the one receiver, the receiver's own arguments, and name /
+    environment / wrapper fields untouched. -/
+theorem C12_single_target_is_code :
+    Gen.C12.singleTargetTable.length = 16 ∧
+    Gen.C12.singleTargetTable.all (fun row =>
+      C12_singleView row.2.1 row.2.2.1 row.2.2.2.1 row.2.2.2.2.1 row.2.2.2.2.2.1 == row.2.2.2.2.2.2) = true := by
+  decide
 
 /-- Distinct command ids and distinct targets make the keys of different
     callers different. -/
@@ -264,6 +305,133 @@ theorem C12_others_irrelevant (cmds : List Cmd) (h : wfCfg cmds = true) (sched :
     (run cmds init sched).call i = (run cmds init (sched.filter (concerns cmds i))).call i :=
   (view_run h hk sched init init (inv_init cmds) ⟨rfl, rfl, rfl⟩).1
 
+/-! ## the per-target command and its response timeout -/
+
+/-- What `MakeSingleTarget` preserves (the model's transcription; identified
+    with the linked code by `C12_single_target_is_code`): defined exactly for the
+    command's targets; same id, same response timeout, that one target, that
+    target's own arguments. -/
+theorem C12_single_target_preserves (c : Cmd) (t : Nat) :
+    (t ∈ c.targets → ∃ sc, singleTarget c t = some sc) ∧
+    (∀ sc, singleTarget c t = some sc →
+      t ∈ c.targets ∧ sc.id = c.id ∧ sc.tmo = c.tmo ∧ sc.targets = [t] ∧ argOf sc t = argOf c t) := by
+  refine ⟨fun h => ⟨_, singleTarget_of_mem h⟩, ?_⟩
+  intro sc h
+  obtain ⟨hm, rfl⟩ := singleTarget_some h
+  exact ⟨hm, rfl, rfl, rfl, argOf_single _ _ _ _⟩
+
+/-- The servent waits for target `t` with the command's OWN response timeout:
+    the command object the caller for (command `c`, target `t`) registers, sends
+    and arms its timer with is the command restricted to `t` — same id (so the
+    key is (command id, t)), same response timeout, `t`'s own arguments — and
+    that is what the send function is handed. -/
+theorem C12_waits_own_timeout (cmds : List Cmd) (c p t : Nat) (cmd : Cmd)
+    (hc : cmds[c]? = some cmd) (ht : cmd.targets[p]? = some t) :
+    ∃ sc, callCmd cmds (c, p) = some (sc, t) ∧
+      sc.id = cmd.id ∧ sc.targets = [t] ∧ sc.tmo = cmd.tmo ∧ argOf sc t = argOf cmd t ∧
+      keyOf? cmds (c, p) = some ⟨cmd.id, t⟩ ∧ timerOf cmds (c, p) = some cmd.tmo ∧
+      ∀ ok, sendView cmds (c, p) ok = some (.send c t ok cmd.tmo (argOf cmd t)) := by
+  refine ⟨_, callCmd_of hc ht, rfl, rfl, rfl, argOf_single _ _ _ _, keyOf_of hc ht, ?_, ?_⟩
+  · simp [timerOf, callCmd_of hc ht]
+  · intro ok; simp [sendView, callCmd_of hc ht, argOf_single]
+
+/-- In every schedule, every call of the send function carries the command's own
+    response timeout and the target's own arguments (`sendsOk`, the clause of
+    Spec.C12 evaluated on the real code's send calls). -/
+theorem C12_sends_own_timeout (cmds : List Cmd) (sched : List Step) :
+    sendsOk cmds (sendTrace cmds init sched) = true :=
+  sendTrace_ok cmds sched init
+
+/-! ## a reply that arrives while its call is pending is never lost -/
+
+/-- Registration precedes the send. Once the send function for caller `i` has
+    been entered (`pre` ends with `i` registered), a reply `r` addressed to `i`'s
+    (command id, target) that is processed before `i`'s timeout fires or its send
+    fails (`mid`) finds the pending call — unless an earlier reply with the same
+    key took it. Whatever happens later (`post`): the caller's `Call` object
+    holds such a reply `r'` for good; if the caller returns a reply it is `r'`;
+    it can only return "did not answer" through a timeout that fires AFTER the
+    hand-over (and then `ProcessResponse(r')` is blocked for ever — it never
+    returns), or "could not be sent" through a send failure after it. This is
+    `notLostOk` of Spec.C12. -/
+theorem C12_reply_not_lost (cmds : List Cmd) (h : wfCfg cmds = true) (pre mid post : List Step) (i : Ref) (r : Resp)
+    (hk : keyOf? cmds i = some r.key)
+    (hreg : ((run cmds init pre).call i).pc = .registered)
+    (hto : Step.timeout i ∉ mid) (hsf : Step.sendFail i ∉ mid)
+    (o : Outcome)
+    (hfin : ((run cmds init (pre ++ mid ++ .deliver r :: post)).call i).pc = .finished o) :
+    ∃ r', Step.deliver r' ∈ pre ++ mid ++ [.deliver r] ∧ r'.key = r.key ∧
+      ((run cmds init (pre ++ mid ++ .deliver r :: post)).call i).mailbox = some r' ∧
+      match (generalizing := false) o with
+      | .reply r'' => r'' = r'
+      | .sendErr => Step.sendFail i ∈ post
+      | .timeoutErr => Step.timeout i ∈ post := by
+  have inv1 := inv_run1 h pre init (inv_init cmds)
+  have inv2 := inv_run1 h mid _ inv1
+  have inv3 := inv_step h inv2 (.deliver r)
+  have hsplit : run cmds init (pre ++ mid ++ .deliver r :: post) =
+      run cmds (step cmds (run cmds (run cmds init pre) mid) (.deliver r)) post := by
+    rw [run_append, run_append]; rfl
+  rw [hsplit] at hfin ⊢
+  generalize hs1 : run cmds init pre = s1 at *
+  generalize hs2 : run cmds s1 mid = s2 at *
+  have hact : Active s1 i := .inl hreg
+  have hfill : ((step cmds s2 (.deliver r)).call i).mailbox ≠ none := by
+    rcases active_run h mid s1 i inv1 hact hto hsf with ha | hm
+    · rw [hs2] at ha; exact deliver_fills inv2 hk ha
+    · rw [hs2] at hm
+      cases hm' : (s2.call i).mailbox with
+      | none => exact absurd hm' hm
+      | some r0 => rw [mailbox_stable_step inv2 (.deliver r) i r0 hm']; simp
+  generalize hs3 : step cmds s2 (.deliver r) = s3 at *
+  cases hm3 : (s3.call i).mailbox with
+  | none => exact absurd hm3 hfill
+  | some r' =>
+    have hmf := mailbox_stable_run h post s3 inv3 i r' hm3
+    have hin : Step.deliver r' ∈ pre ++ mid ++ [.deliver r] := by
+      have : s3 = run cmds init (pre ++ mid ++ [.deliver r]) := by
+        rw [run_append, run_append, hs1, hs2, ← hs3]; rfl
+      rw [this] at hm3
+      rcases mailbox_run_cause _ init i r' hm3 with h0 | h0
+      · simp [init] at h0
+      · exact h0
+    have hkey : r'.key = r.key := by
+      have := (inv3.M i r' hm3).1
+      rw [hk] at this
+      exact (Option.some.inj this).symm
+    refine ⟨r', hin, hkey, hmf, ?_⟩
+    have hpc3 : (s3.call i).pc = (s2.call i).pc := by
+      rw [← hs3]; simp only [step]; split
+      · rfl
+      · simp only [upd]; split <;> simp_all
+    -- a caller that had already returned when `r` was processed returned a reply
+    have early : ∀ o', (s3.call i).pc = .finished o' → ∃ r'', o' = .reply r'' := by
+      intro o' hf
+      rw [hpc3, ← hs2] at hf
+      rcases outcome_run_cause mid s1 i o' hf with h0 | ⟨h0, _⟩
+      · rw [hreg] at h0; cases h0
+      · cases o' with
+        | reply r'' => exact ⟨r'', rfl⟩
+        | sendErr => exact absurd h0 hsf
+        | timeoutErr => exact absurd h0 hto
+    have held : ReplyHeld (run cmds s3 post) := by
+      have : run cmds s3 post = run cmds init (pre ++ mid ++ .deliver r :: post) := by
+        rw [run_append, run_append, hs1, hs2]; simp only [run]; rw [hs3]
+      rw [this]; exact replyHeld_run h _ init (inv_init cmds) replyHeld_init
+    cases o with
+    | reply r'' =>
+      have := held i r'' hfin
+      rw [hmf] at this
+      exact (Option.some.inj this).symm
+    | sendErr =>
+      rcases outcome_run_cause post s3 i .sendErr hfin with h0 | ⟨h0, _⟩
+      · obtain ⟨r'', hr⟩ := early _ h0; cases hr
+      · exact h0
+    | timeoutErr =>
+      rcases outcome_run_cause post s3 i .timeoutErr hfin with h0 | ⟨h0, _⟩
+      · obtain ⟨r'', hr⟩ := early _ h0; cases hr
+      · exact h0
+
 /-! ## non-vacuity
 
 Two commands (ids 7 and 9) over targets {1,2,3} / {1}: while command 0 is in
@@ -272,7 +440,7 @@ silent, the send to target 3 fails, a reply for the queued command 1 arrives
 early (dropped) and a foreign id (99) shows up; then command 1 runs and gets a
 late reply of command 0 plus its own. -/
 
-def C12_demo_cmds : List Cmd := [⟨7, [1, 2, 3]⟩, ⟨9, [1]⟩]
+def C12_demo_cmds : List Cmd := [{ id := 7, targets := [1, 2, 3], tmo := 40, args := [(2, 5)] }, { id := 9, targets := [1] }]
 
 def C12_demo_sched : List Step :=
   [.start 0, .register (0, 0), .register (0, 2), .register (0, 1), .sendOk (0, 0), .sendFail (0, 2),
@@ -286,3 +454,49 @@ example : wfCfg C12_demo_cmds = true := by decide
 example : (run C12_demo_cmds init C12_demo_sched).callbacks =
     [(0, .multi 7 [(3, .synth 7 .send), (1, .own ⟨7, 1, 40, false⟩), (2, .synth 7 .timeout)]),
      (1, .single (.own ⟨9, 1, 51, true⟩))] := by decide
+
+/-- `C12_reply_not_lost` has realistic instances: command 0's caller for target 1
+    is inside its send call, an early reply for the queued command 1 is dropped,
+    the send returns, target 1's reply arrives and is received. -/
+example : ∃ r', Step.deliver r' ∈ [Step.start 0, .register (0, 0)] ++ [.sendOk (0, 0), .deliver ⟨9, 1, 50, false⟩] ++
+      [.deliver ⟨7, 1, 40, false⟩] ∧ r'.key = (⟨7, 1, 40, false⟩ : Resp).key ∧ (⟨7, 1, 40, false⟩ : Resp) = r' := by
+  obtain ⟨r', h1, h2, _, h4⟩ := C12_reply_not_lost C12_demo_cmds (by decide) [.start 0, .register (0, 0)]
+    [.sendOk (0, 0), .deliver ⟨9, 1, 50, false⟩] [.recv (0, 0)] (0, 0) ⟨7, 1, 40, false⟩
+    (by decide) (by decide) (by decide) (by decide) (.reply ⟨7, 1, 40, false⟩) (by decide)
+  exact ⟨r', h1, h2, h4⟩
+
+/-- Every call of the send function in the demo schedule carries the command's own
+    timeout (40 for command 0) and the target's own arguments (5 for target 2). -/
+example : sendTrace C12_demo_cmds init C12_demo_sched =
+    [.send 0 1 true 40 0, .send 0 3 false 40 0, .send 0 2 true 40 5, .send 1 1 true 0 0] := by decide
+
+/-! What the two new clauses of Spec.C12 reject and accept (one command, id 100,
+target 2 with arguments 9, response timeout 30): a send call handed another
+timeout; a reply that was looked up while the call was pending — its
+`ProcessResponse` returned before the timer could fire — and is nevertheless
+reported as a timeout. -/
+
+def C12_demo2 : List Cmd := [{ id := 100, targets := [2], tmo := 30, args := [(2, 9)] }]
+
+example : Spec C12_demo2
+    [.send 0 2 true 30 9, .resp ⟨100, 2, 1, false⟩, .ret ⟨100, 2, 1, false⟩ true,
+     .done 0 (.single (.own ⟨100, 2, 1, false⟩))]
+    [(0, .single (.own ⟨100, 2, 1, false⟩))] = true := by decide
+
+example : Spec C12_demo2
+    [.send 0 2 true 90000 9, .resp ⟨100, 2, 1, false⟩, .ret ⟨100, 2, 1, false⟩ true,
+     .done 0 (.single (.own ⟨100, 2, 1, false⟩))]
+    [(0, .single (.own ⟨100, 2, 1, false⟩))] = false := by decide
+
+example : Spec C12_demo2
+    [.send 0 2 true 30 9, .resp ⟨100, 2, 1, false⟩, .ret ⟨100, 2, 1, false⟩ true,
+     .done 0 (.single (.synth 100 .timeout))]
+    [(0, .single (.synth 100 .timeout))] = false := by decide
+
+/-- … while a reply whose `ProcessResponse` did NOT provably return before the
+    timer could fire may have come too late: accepted. -/
+example : Spec C12_demo2
+    [.send 0 2 true 30 9, .resp ⟨100, 2, 1, false⟩, .ret ⟨100, 2, 1, false⟩ false,
+     .done 0 (.single (.synth 100 .timeout))]
+    [(0, .single (.synth 100 .timeout))] = true := by decide
+
